@@ -74,6 +74,9 @@ PoolC02two(hostAxes, hostTests, A) ==
 
 \* parenthesised path followed by a boolean predicate:  (path)[p]
 PoolC02paren(paths, A) == {Filter(pa, <<p>>, <<>>) : pa \in paths, p \in A}
+\* ... followed by several predicates, and by further steps
+PoolC02paren2(paths, A) == {Filter(pa, <<p, q>>, <<>>) : pa \in paths, p \in A, q \in A}
+                           \cup {Filter(pa, <<p, q>>, <<Step("child", NTAny, <<>>)>>) : pa \in paths, p \in A, q \in A}
 
 (***************************************************************************)
 (* C03: positional predicates, first on a child-axis step                  *)
